@@ -3,6 +3,7 @@ package gbnprop
 import (
 	"context"
 	"fmt"
+	"os"
 	"strings"
 	"sync"
 	"testing"
@@ -119,6 +120,9 @@ func genC10(t *rapid.T) *hsCase {
 // death records why a data-phase attempt ended.
 type death struct {
 	at      time.Time
+	client  bool
+	entered int64
+	died    int64
 	byHsPkt bool // a SYN/SYNACK was handed to it while in the data phase
 	byFin   bool
 }
@@ -368,6 +372,7 @@ func runC10(t *testing.T, c *hsCase) (res c10Result) {
 					}
 					d := death{at: time.Now()}
 					teUs, tcUs := enteredAt, tr.Now()
+					d.client, d.entered, d.died = isClient, teUs, tcUs
 					for _, e := range tr.Snapshot() {
 						if e.Ev != "recv" || e.Dir != in || e.T < teUs || e.T > tcUs {
 							continue
@@ -469,13 +474,21 @@ func runC10(t *testing.T, c *hsCase) (res c10Result) {
 		}
 		if viol == "" && !converged && !faultEnd.IsZero() {
 			n, all := 0, true
+			feUs := tr.Now() - time.Since(faultEnd).Microseconds()
 			for _, d := range deaths {
-				if d.at.Before(faultEnd) {
+				// connections that entered the data phase while faults were
+				// still being applied may die of those faults (a dropped
+				// keepalive answer); the loop is about the ones set up on
+				// the reliable transport afterwards
+				if d.at.Before(faultEnd) || d.entered < feUs {
 					continue
 				}
 				n++
 				if !d.byHsPkt && !d.byFin {
 					all = false
+					if debugTrace {
+						fmt.Printf("DBG death not by SYN/FIN: client=%v entered=%dus died=%dus\n", d.client, d.entered, d.died)
+					}
 				}
 			}
 			res.staleSynLoop = n >= 3 && all
@@ -527,6 +540,9 @@ func runC10(t *testing.T, c *hsCase) (res c10Result) {
 		}
 		if res.violation != "" {
 			res.tail = tr.Tail(400)
+			if debugTrace {
+				_ = os.WriteFile(os.TempDir()+"/c10trace.txt", []byte(strings.Join(tr.Tail(1000000), "\n")), 0o644)
+			}
 		}
 	}
 	if faulted {
@@ -558,6 +574,22 @@ func maxInt(a, b int) int {
 	return b
 }
 
+// c10Known returns the id of the recorded finding whose mechanism explains the
+// violation, or "".
+func c10Known(rec *stats.Recorder, r *c10Result) string {
+	switch {
+	case r.staleN && rec.IsKnown("gbn-stale-syn-other-n"):
+		return "gbn-stale-syn-other-n"
+	case r.fullWindow && rec.IsKnown("gbn-dead-peer-full-window-c10"):
+		return "gbn-dead-peer-full-window-c10"
+	case r.crossAttempt && rec.IsKnown("gbn-cross-attempt-desync"):
+		return "gbn-cross-attempt-desync"
+	case r.staleSynLoop && rec.IsKnown("gbn-stale-syn-reconnect-loop"):
+		return "gbn-stale-syn-reconnect-loop"
+	}
+	return ""
+}
+
 func TestC10Handshake(t *testing.T) {
 	const unit = "TestC10Handshake"
 	rec := stats.New(t, "C10", unit)
@@ -565,6 +597,11 @@ func TestC10Handshake(t *testing.T) {
 	if stats.ReplayCase(unit, &rc) {
 		for i := 0; i < 10; i++ {
 			if r := runC10(t, &rc); r.violation != "" {
+				if id := c10Known(rec, &r); id != "" {
+					t.Logf("replay run %d matches the recorded finding %s: %s", i, id, r.violation)
+					rec.KnownHit(id)
+					continue
+				}
 				rec.Violation(r.violation, "handshake", rc)
 				t.Fatalf("%s\n%s", r.violation, strings.Join(r.tail, "\n"))
 			}
@@ -583,20 +620,8 @@ func TestC10Handshake(t *testing.T) {
 			rec.Sample(c)
 		}
 		if r.violation != "" {
-			if r.staleN && rec.IsKnown("gbn-stale-syn-other-n") {
-				rec.KnownHit("gbn-stale-syn-other-n")
-				return
-			}
-			if r.fullWindow && rec.IsKnown("gbn-dead-peer-full-window-c10") {
-				rec.KnownHit("gbn-dead-peer-full-window-c10")
-				return
-			}
-			if r.crossAttempt && rec.IsKnown("gbn-cross-attempt-desync") {
-				rec.KnownHit("gbn-cross-attempt-desync")
-				return
-			}
-			if r.staleSynLoop && rec.IsKnown("gbn-stale-syn-reconnect-loop") {
-				rec.KnownHit("gbn-stale-syn-reconnect-loop")
+			if id := c10Known(rec, &r); id != "" {
+				rec.KnownHit(id)
 				return
 			}
 			rec.Pending(r.violation, "handshake", struct {
